@@ -79,6 +79,45 @@ Proof.
   - eapply Permutation_trans; eauto.
 Qed.
 
+Lemma NoDup_app_intro {X} (l1 l2 : list X) :
+  NoDup l1 -> NoDup l2 -> (forall x, In x l1 -> ~ In x l2) -> NoDup (l1 ++ l2).
+Proof.
+  induction l1 as [|a l1 IH]; intros H1 H2 Hd; [exact H2|].
+  cbn [app]. apply NoDup_cons_iff in H1. destruct H1 as [Ha H1]. constructor.
+  - intros Hin. apply in_app_or in Hin. destruct Hin as [Hin|Hin]; [tauto|]. apply (Hd a); [left; reflexivity|exact Hin].
+  - apply IH; [exact H1|exact H2|]. intros x Hx. apply Hd. right; exact Hx.
+Qed.
+
+Lemma NoDup_flat_map {X Y} (F : X -> list Y) (l : list X) :
+  NoDup l -> (forall x, In x l -> NoDup (F x)) ->
+  (forall x y z, In x l -> In y l -> x <> y -> In z (F x) -> ~ In z (F y)) ->
+  NoDup (flat_map F l).
+Proof.
+  induction l as [|a l IH]; intros Hnd HF Hd; [constructor|].
+  cbn [flat_map]. apply NoDup_cons_iff in Hnd. destruct Hnd as [Ha Hnd].
+  apply NoDup_app_intro.
+  - apply HF. left; reflexivity.
+  - apply IH; [exact Hnd| |].
+    + intros x Hx. apply HF. right; exact Hx.
+    + intros x y z Hx Hy. apply Hd; right; assumption.
+  - intros z Hz Hin. apply in_flat_map in Hin. destruct Hin as [y [Hy Hzy]].
+    apply (Hd a y z); [left; reflexivity|right; exact Hy| |exact Hz|exact Hzy].
+    intros ->. tauto.
+Qed.
+
+Lemma NoDup_indexed {X} (l : list X) : NoDup (indexed l).
+Proof.
+  unfold indexed. generalize 0%nat as s. induction l as [|x l IH]; intros s; cbn [length seq combine]; [constructor|].
+  constructor; [|apply IH].
+  intros Hin. apply in_combine_l in Hin. apply in_seq in Hin. lia.
+Qed.
+
+Lemma filter_none {X} (f : X -> bool) l : (forall x, In x l -> f x = false) -> filter f l = [].
+Proof.
+  induction l as [|x l IH]; intros H; [reflexivity|]. cbn [filter].
+  rewrite (H x) by (left; reflexivity). apply IH. intros y Hy. apply H. right; exact Hy.
+Qed.
+
 (* ---------------------------------------------------------------- graph *)
 Lemma getn_overflow g n : length g <= n -> getn g n = dummy_node.
 Proof. intros H. unfold getn. apply nth_overflow. exact H. Qed.
@@ -90,12 +129,12 @@ Proof.
   - rewrite getn_overflow in Hin by lia. simpl in Hin. tauto.
 Qed.
 
-Lemma reachable_le g r v : wf g -> reachable g r v -> v <= r.
+Lemma sw_reachable_le g r v : wf g -> reachable g r v -> v <= r.
 Proof.
   intros Hwf H. induction H; [lia|]. apply (children_lt _ _ _ Hwf) in H. lia.
 Qed.
 
-Lemma reachable_trans g a b c : reachable g a b -> reachable g b c -> reachable g a c.
+Lemma sw_reachable_trans g a b c : reachable g a b -> reachable g b c -> reachable g a c.
 Proof. induction 1; auto. intros. econstructor; eauto. Qed.
 
 Lemma reachb_f_sound g : forall fuel r v, reachb_f g fuel r v = true -> reachable g r v.
@@ -717,7 +756,7 @@ Proof.
     - apply NoDup_rev'. exact Hnd.
     - apply NoDup_filter. apply seq_NoDup.
     - intros x. rewrite <- in_rev, Hmem, filter_In, in_seq, (reachb_iff g root x Hwf).
-      split; [|tauto]. intros H. split; [|exact H]. apply (reachable_le g root x Hwf) in H. lia. }
+      split; [|tauto]. intros H. split; [|exact H]. apply (sw_reachable_le g root x Hwf) in H. lia. }
   apply (Permutation_filter' hasfn) in HP. apply Permutation_length in HP. rewrite HP.
   f_equal. clear. induction (seq 0 (length g)) as [|x l IH]; [reflexivity|].
   cbn [filter]. destruct (reachb g root x); cbn [filter andb]; [destruct (has_fn (getn g x))|]; rewrite IH; reflexivity.
@@ -744,9 +783,9 @@ Proof.
   assert (Hzc : zero_char g root b z).
   { intros c. rewrite Hz. split; intros [H1 [H2 [H3 H4]]]; (split; [exact H1|]; split; [exact H2|]; split; [exact H3|]).
     - destruct H4 as [H4|H4]; [left|right; exact H4]. apply mem_present_of; [|exact H4].
-      apply (reachable_le g root c Hwf) in H2. lia.
+      apply (sw_reachable_le g root c Hwf) in H2. lia.
     - destruct H4 as [H4|H4]; [left|right; exact H4]. apply mem_present_of; [|exact H4].
-      apply (reachable_le g root c Hwf) in H2. lia. }
+      apply (sw_reachable_le g root c Hwf) in H2. lia. }
   destruct (run_sweep_expected g w mode root seed Hwf Hok Hreq ord z b Hpo Hzc) as [b' [Hrun Hexp]].
   exists b', ord. split; [|split; [exact Hpo|exact Hexp]].
   unfold backward. rewrite Hreq. cbn [negb]. rewrite Hd. exact Hrun.
@@ -786,5 +825,76 @@ Proof.
   unfold all_paths. split; [apply paths_sound|]. intros H. apply paths_complete; [exact H|lia].
 Qed.
 
+Lemma paths_nodup : forall fuel n v, NoDup (paths g fuel n v).
+Proof.
+  induction fuel as [|f IH]; intros n v; cbn [paths].
+  - rewrite app_nil_r. destruct (n =? v); repeat constructor. simpl; tauto.
+  - apply NoDup_app_intro.
+    + destruct (n =? v); repeat constructor. simpl; tauto.
+    + destruct (has_fn (getn g n)); [|constructor].
+      apply NoDup_flat_map.
+      * apply NoDup_indexed.
+      * intros [k c] _. cbn [fst snd]. destruct (req (getn g c)); [|constructor].
+        apply FinFun.Injective_map_NoDup; [|apply IH]. intros p q E. injection E. auto.
+      * intros [k c] [k' c'] z Hx Hy Hne Hz Hz'. cbn [fst snd] in *.
+        destruct (req (getn g c)); [|destruct Hz]. destruct (req (getn g c')); [|destruct Hz'].
+        apply in_map_iff in Hz. destruct Hz as [p [<- _]].
+        apply in_map_iff in Hz'. destruct Hz' as [q [E _]]. injection E as E1 E2. subst k'.
+        apply in_indexed in Hx. apply in_indexed in Hy. rewrite Hx in Hy. injection Hy as ->. apply Hne. reflexivity.
+    + intros p Hp Hin. destruct (n =? v); [|destruct Hp]. destruct Hp as [<-|[]].
+      destruct (has_fn (getn g n)); [|destruct Hin].
+      apply in_flat_map in Hin. destruct Hin as [[k c] [_ Hin]]. cbn [fst snd] in Hin.
+      destruct (req (getn g c)); [|destruct Hin]. apply in_map_iff in Hin. destruct Hin as [q [E _]]. discriminate.
+Qed.
+
 End PathsSpec.
+
 End Generic.
+
+(* ---------------------------------------------------------------- untracked results keep nothing (C17) *)
+Lemma retained_untracked g n : node_ok (getn g n) -> req (getn g n) = false -> retained g n = [n].
+Proof.
+  intros [_ Hk] Hr. specialize (Hk Hr). unfold retained.
+  assert (E : forall v, reachb g n v = (n =? v)).
+  { intros v. unfold reachb. cbn [reachb_f]. rewrite Hk. cbn [existsb]. apply orb_false_r. }
+  rewrite seq_S, filter_app. cbn [filter plus]. rewrite E, Nat.eqb_refl.
+  rewrite filter_none; [reflexivity|].
+  intros x Hx. apply in_seq in Hx. rewrite E. apply Nat.eqb_neq. lia.
+Qed.
+
+Lemma untracked_not_traversed g n m : node_ok (getn g n) -> req (getn g n) = false -> reachable g n m -> m = n.
+Proof.
+  intros [_ Hk] Hr H. specialize (Hk Hr). destruct H as [|n c m Hc _]; [reflexivity|].
+  rewrite Hk in Hc. destruct Hc.
+Qed.
+
+(* ---------------------------------------------------------------- the two instances used by the checks *)
+From Coq Require Import ZArith.
+
+Lemma ZAlg_ok : galg_ok ZAlg.
+Proof. constructor; cbn; intros; ring. Qed.
+
+Lemma Z2Alg_ok : galg_ok Z2Alg.
+Proof.
+  constructor; cbn; intros.
+  - f_equal; ring.
+  - f_equal; ring.
+  - destruct a; cbn; reflexivity.
+  - f_equal; ring.
+  - f_equal; ring.
+Qed.
+
+Lemma apply_path_Z (w : nat -> nat -> Z) : forall p (s : Z), @eq Z (apply_path ZAlg w p s) (s * path_weight w p)%Z.
+Proof.
+  induction p as [|[n k] p IH]; intros s; cbn [apply_path path_weight fold_right fst snd].
+  - ring.
+  - rewrite IH. cbn [act ZAlg]. unfold path_weight. ring.
+Qed.
+
+(* for one-element tensors "the sum over all paths" is seed * (sum over paths of the product of the local derivatives) *)
+Lemma pathval_Z g (w : nat -> nat -> Z) r v (s : Z) : @eq Z (pathval ZAlg g w r v s) (s * pathsum g w r v)%Z.
+Proof.
+  unfold pathval, pathsum. induction (all_paths g r v) as [|p l IH]; cbn [map Sweep.vsum fold_right].
+  - cbn [vzero ZAlg]. ring.
+  - unfold Sweep.vsum in IH. rewrite IH, apply_path_Z. cbn [vadd ZAlg]. ring.
+Qed.
